@@ -452,8 +452,9 @@ def run_cli_item(item, text, ref, stat, viols, ii, want_bytes=False):
     invalid = item['k'] == 'cli_invalid'
     out_enc = enc if item['out'] == 'file' else (item.get('stdout_enc')
                                                  or 'utf-8')
-    if not invalid and ref is not None and ref['k'] == 'ok' and \
-            not can_encode(ref.get('v', ''), out_enc):
+    if not invalid and ref is not None and ref['k'] == 'ok' and not (
+            can_encode(ref.get('v', ''), out_enc)
+            and can_encode(ref.get('v', ''), enc)):
         # e.g. identifier_case=upper turns a letter into one the output
         # encoding cannot represent: the environment's limit, no expectation
         stat('cli_skipped_output_not_encodable')
